@@ -312,8 +312,30 @@ fn run_l2(c: &L2Case, rec: &mut CaseRec) -> Result<(), String> {
         }
         let o_clean = l2scen::execute("C05", &b2, &e, None, state.as_deref())?;
         let wn = o_clean.events.iter().filter(|ev| ev.path.ends_with("o.out") && ev.op == "write").count();
-        let (opname, n) = if *op % 2 == 0 { ("write", wn) } else { ("ftruncate", if s.block_dev { 0 } else { 1 }) };
-        if n > 0 {
+        let count = |name: &str| o_clean.events.iter().filter(|ev| ev.path.ends_with("o.out") && ev.op == name).count();
+        let (opname, n) = match *op % 4 {
+            0 => ("write", wn),
+            1 => ("ftruncate", if s.block_dev { 0 } else { 1 }),
+            2 => ("lseek", count("lseek")),
+            _ => ("read", count("read")),
+        };
+        if n > 0 && (opname == "lseek" || opname == "read") {
+            // a failing seek / read of the output (in-place scan, reorder reads, positioning): the property only speaks of
+            // writes, so the oracle here is the weaker, always valid one: exit 0 implies a correct output
+            let k = idx(*kf, n);
+            let hook = l2::Hook { fail: vec![(opname.into(), "o.out".into(), k as u32, libc::EIO)], ..Default::default() };
+            let o3 = l2scen::execute("C05", &b2, &e, Some(hook), state.as_deref())?;
+            if o3.run.ok() {
+                let out = o3.output.as_ref().ok_or("exit 0 but no output")?;
+                if let Err(m) = check_final_output(&b2.scen, &e, out) {
+                    clean_dir(&dir);
+                    return Err(format!("bita clone exited 0 with a wrong output although {} #{} of {} on the output failed with EIO: {}", opname, k, n, m));
+                }
+            }
+            nontrivial = true;
+            rec.class(if opname == "lseek" { "seek_error_injected" } else { "read_error_injected" });
+            state = o3.output.or(state);
+        } else if n > 0 {
             let k = idx(*kf, n);
             let errno = if *en % 2 == 0 { libc::EIO } else { libc::ENOSPC };
             let hook = l2::Hook { fail: vec![(opname.into(), "o.out".into(), k as u32, errno)], ..Default::default() };
@@ -370,7 +392,7 @@ fn l2_strategy() -> impl Strategy<Value = L2Case> {
     (
         l2scen::l2scen_strategy(scenario_strategy(8, true, true).boxed()),
         prop_oneof![1 => Just(None), 3 => (any::<u16>(), prop_oneof![Just(None), Just(Some(65535u16)), (0u16..65535).prop_map(Some)]).prop_map(Some)],
-        prop_oneof![1 => Just(None), 2 => (0u8..4, prop_oneof![any::<u16>(), Just(65535u16)], 0u8..2).prop_map(|(op, k, en)| Some((if op == 3 { 1 } else { 0 }, k, en)))],
+        prop_oneof![1 => Just(None), 3 => (0u8..8, prop_oneof![any::<u16>(), Just(65535u16)], 0u8..2).prop_map(|(op, k, en)| Some((match op { 0..=3 => 0, 4 => 1, 5 | 6 => 2, _ => 3 }, k, en)))],
     )
         .prop_map(|(base, kill, fail)| L2Case { base, kill, fail })
 }
@@ -402,7 +424,7 @@ impl Prop for C05 {
             cx.set_exhaustive("every_crash_point_and_tear_offset_of_pooled_scenarios_with_le_40_writes", count);
         }
         cx.run_prop("hist", t.pick(8_000, 200_000), case_strategy(), run_case);
-        cx.run_prop("l2", t.pick(480, 8000), l2_strategy(), run_l2);
+        cx.run_prop("l2", t.pick(960, 12000), l2_strategy(), run_l2);
         let _ = std::fs::remove_dir_all(worker_dir("C05"));
     }
     fn replay(&self, _cx: &mut WorkerCtx, variant: &str, case: &Value) -> Result<(), String> {
